@@ -1,0 +1,120 @@
+//! Verification hooks, compiled only with `--cfg qwt_verif`.
+//!
+//! The Huffman-shaped trees iterate two randomly seeded hash maps while they assign
+//! code lengths and codewords, so symbols that tie (equal frequency, equal code length)
+//! are ordered differently from one construction to the next. These hooks let a test
+//! harness *choose* that order: a thread-local script holds, for every class of tied
+//! symbols in the order the builder meets them, the index (in the factorial number
+//! system) of the permutation to apply to the class once it has been put in symbol
+//! order. Without a script (the default) nothing is changed and the hash-map order is
+//! used as in a normal build.
+use std::cell::RefCell;
+use std::collections::HashMap;
+
+thread_local! {
+    static SCRIPT: RefCell<Option<(Vec<usize>, usize)>> = const { RefCell::new(None) };
+    static REPORT: RefCell<Vec<usize>> = const { RefCell::new(Vec::new()) };
+}
+
+/// Installs (`Some`) or removes (`None`) the tie script of the calling thread and
+/// clears the report. Entries beyond the end of the script count as 0 (symbol order).
+pub fn set_tie_script(script: Option<Vec<usize>>) {
+    SCRIPT.with(|s| *s.borrow_mut() = script.map(|v| (v, 0)));
+    REPORT.with(|r| r.borrow_mut().clear());
+}
+
+/// Returns (and clears) the sizes of the tie classes met since the script was set, in
+/// the order in which script entries were consumed.
+pub fn take_tie_report() -> Vec<usize> {
+    REPORT.with(|r| std::mem::take(&mut *r.borrow_mut()))
+}
+
+fn active() -> bool {
+    SCRIPT.with(|s| s.borrow().is_some())
+}
+
+// Next script entry for a class of `size` tied items.
+fn next_choice(size: usize) -> usize {
+    REPORT.with(|r| r.borrow_mut().push(size));
+    SCRIPT.with(|s| {
+        let mut s = s.borrow_mut();
+        let (script, cursor) = s.as_mut().unwrap();
+        let c = script.get(*cursor).copied().unwrap_or(0);
+        *cursor += 1;
+        c
+    })
+}
+
+// Applies the permutation number `index` (factorial number system, 0 = identity) to `items`.
+fn permute<T: Clone>(items: &mut [T], mut index: usize) {
+    let mut pool: Vec<T> = items.to_vec();
+    let n = pool.len();
+    let mut fact = vec![1usize; n + 1];
+    for i in 1..=n {
+        fact[i] = fact[i - 1].saturating_mul(i);
+    }
+    index %= fact[n];
+    for (i, slot) in items.iter_mut().enumerate() {
+        let f = fact[n - 1 - i];
+        let k = index / f;
+        index %= f;
+        *slot = pool.remove(k);
+    }
+}
+
+/// Among symbols of equal frequency the code lengths computed by `minimum_redundancy`
+/// depend on the enumeration order of `freqs`: redistribute the lengths of every such
+/// class (sorted increasingly, handed to the symbols in increasing symbol order) according
+/// to the script.
+pub fn permute_lengths_among_equal_freqs<W: Ord + Copy>(
+    freqs: &HashMap<usize, W>,
+    lengths: &mut HashMap<usize, u32>,
+) {
+    if !active() {
+        return;
+    }
+    let mut by_freq: Vec<(W, usize)> = freqs.iter().map(|(&s, &w)| (w, s)).collect();
+    by_freq.sort();
+    let mut start = 0;
+    while start < by_freq.len() {
+        let mut end = start + 1;
+        while end < by_freq.len() && by_freq[end].0 == by_freq[start].0 {
+            end += 1;
+        }
+        if end - start > 1 {
+            let symbols: Vec<usize> = by_freq[start..end].iter().map(|x| x.1).collect();
+            let mut lens: Vec<u32> = symbols.iter().map(|s| lengths[s]).collect();
+            lens.sort();
+            permute(&mut lens, next_choice(end - start));
+            for (s, l) in symbols.iter().zip(lens) {
+                lengths.insert(*s, l);
+            }
+        }
+        start = end;
+    }
+}
+
+/// Puts `items` in (length, symbol) order and then permutes every class of equal length
+/// according to the script. The builders sort stably by length afterwards, so this fixes
+/// the order in which symbols of equal code length receive their codewords.
+pub fn order_equal_length_symbols<T: Clone>(
+    items: &mut [T],
+    symbol: impl Fn(&T) -> usize,
+    len: impl Fn(&T) -> u32,
+) {
+    if !active() {
+        return;
+    }
+    items.sort_by_key(|x| (len(x), symbol(x)));
+    let mut start = 0;
+    while start < items.len() {
+        let mut end = start + 1;
+        while end < items.len() && len(&items[end]) == len(&items[start]) {
+            end += 1;
+        }
+        if end - start > 1 {
+            permute(&mut items[start..end], next_choice(end - start));
+        }
+        start = end;
+    }
+}
